@@ -30,6 +30,9 @@ def universe():
     return out
 
 
+BIG_LOCAL = [2 ** 32, 2 ** 32 + 1, 5 * 10 ** 9, 10 ** 10, 10 ** 10 + 1, 99999999999, 2 ** 63, 2 ** 64 - 1, 2 ** 64, 10 ** 25, 20260921141320, 20260921141321, 9 * 10 ** 24]
+
+
 def random_large(rng, n):
     nums = [0, 1, 2, 9, 10, 11, 99, 2 ** 31, 2 ** 32 - 2, 2 ** 32 - 1]
     out = []
@@ -39,7 +42,10 @@ def random_large(rng, n):
                         pre=rng.choice([None] + [(l, rng.choice(nums)) for l in ("a", "b", "rc")]),
                         post=rng.choice([None, None] + nums), dev=rng.choice([None, None] + nums),
                         local=rng.choice([None, None, (rng.choice(nums),), ("abc",), ("abd",), ("ab",), ("abc", rng.choice(nums)), (rng.choice(nums), "abc"),
-                                          ("z", "z", "z"), ("z", "z"), (2 ** 32 - 1, 0)])))
+                                          ("z", "z", "z"), ("z", "z"), (2 ** 32 - 1, 0),
+                                          # numeric local parts have no upper limit ("numeric parts by value"): beyond u32, beyond u64, different digit counts
+                                          (rng.choice(BIG_LOCAL),), (rng.choice(BIG_LOCAL),), ("abc", rng.choice(BIG_LOCAL)), (rng.choice(BIG_LOCAL), rng.choice(nums)),
+                                          (rng.choice(BIG_LOCAL), "abc"), (rng.choice(nums), rng.choice(BIG_LOCAL))])))
     return out
 
 
@@ -60,6 +66,10 @@ def boundary_families(rng):
                 out.append(dict(b, pre=(lab, v)))
             out.append(dict(b, post=v))
             out.append(dict(b, dev=v))
+            out.append(dict(b, local=(v,)))
+            out.append(dict(b, local=("x", v)))
+            out.append(dict(b, local=(v, "x")))
+        for v in BIG_LOCAL:
             out.append(dict(b, local=(v,)))
             out.append(dict(b, local=("x", v)))
             out.append(dict(b, local=(v, "x")))
@@ -90,6 +100,8 @@ def work_max_tag(bins, lists):
                 bad.append(("max-tag-valid-set", "valid set differs: zerv %r vs grammar %r" % (r["valid"], valid), lst))
                 continue
             if not valid:
+                if r.get("max") is not None:
+                    bad.append(("max-tag-without-valid-tag", "no valid tag in %r but max_tag answered %r" % (lst, r.get("max")), lst))
                 continue
             best = max(key(t) for t in valid)
             if r["max"] is None or r["max"] not in valid or key(r["max"]) != best:
